@@ -13,6 +13,7 @@ import (
 	"fmt"
 	"math"
 	"os"
+	"reflect"
 	"strconv"
 	"time"
 
@@ -87,7 +88,10 @@ type Call struct {
 	Bpm   Dy     `json:"bpm"`
 	Bytes hx.B   `json:"bytes"`
 	Acc   Acc    `json:"acc"`
-	Panic string `json:"panic"`
+	// the accessors were asked a second time with their output variables holding other values beforehand (true, 0xA5, a
+	// non-empty string / slice): did every accessor answer the same?  (an output must not depend on what the variable held)
+	Stable bool   `json:"stable"`
+	Panic  string `json:"panic"`
 }
 
 // Sweep is a block of consecutive sequence numbers.
@@ -232,7 +236,15 @@ func b2i(bs ...uint8) []int {
 }
 
 // observe asks every accessor; each call is guarded on its own, the first panic is kept.
-func observe(m smf.Message, acc *Acc) (pan string) {
+func observe(m smf.Message, acc *Acc, poison bool) (pan string) {
+	var pb uint8
+	var pw uint16
+	var ps string
+	var pf float64
+	var pbytes []byte
+	if poison {
+		pb, pw, ps, pf, pbytes = 0xA5, 0xA5A5, "poison", 12345.5, []byte{0xA5, 0xA5}
+	}
 	try := func(name string, fn func()) {
 		if p := hx.Catch(fn); p != "" && pan == "" {
 			pan = name + ": " + p
@@ -240,8 +252,11 @@ func observe(m smf.Message, acc *Acc) (pan string) {
 	}
 	txt := func(name string, get func(*string) bool, dst *AccS) {
 		try(name, func() {
-			var s string
+			s := ps
 			ok := get(&s)
+			if !ok {
+				s = ""
+			}
 			*dst = AccS{ok, hx.B(s)}
 		})
 	}
@@ -255,54 +270,84 @@ func observe(m smf.Message, acc *Acc) (pan string) {
 	txt("GetMetaProgramName", m.GetMetaProgramName, &acc.Program)
 	txt("GetMetaDevice", m.GetMetaDevice, &acc.Device)
 	try("GetMetaChannel", func() {
-		var v uint8
+		v := pb
 		ok := m.GetMetaChannel(&v)
+		if !ok {
+			v = 0
+		}
 		acc.Channel = AccV{ok, b2i(v)}
 	})
 	try("GetMetaPort", func() {
-		var v uint8
+		v := pb
 		ok := m.GetMetaPort(&v)
+		if !ok {
+			v = 0
+		}
 		acc.Port = AccV{ok, b2i(v)}
 	})
 	try("GetMetaSeqNumber", func() {
-		var v uint16
+		v := pw
 		ok := m.GetMetaSeqNumber(&v)
+		if !ok {
+			v = 0
+		}
 		acc.Seqno = AccV{ok, []int{int(v)}}
 	})
 	try("GetMetaSeqData", func() {
-		var v []byte
+		v := pbytes
 		ok := m.GetMetaSeqData(&v)
+		if !ok {
+			v = nil
+		}
 		acc.Seqdata = AccS{ok, append(hx.B{}, v...)}
 	})
 	try("GetMetaSMPTEOffsetMsg", func() {
-		var h, mi, s, f, ff uint8
+		h, mi, s, f, ff := pb, pb, pb, pb, pb
 		ok := m.GetMetaSMPTEOffsetMsg(&h, &mi, &s, &f, &ff)
+		if !ok {
+			h, mi, s, f, ff = 0, 0, 0, 0, 0
+		}
 		acc.Smpte = AccV{ok, b2i(h, mi, s, f, ff)}
 	})
 	try("GetMetaTempo", func() {
-		var bpm float64
+		bpm := pf
 		ok := m.GetMetaTempo(&bpm)
+		if !ok {
+			bpm = 0
+		}
 		acc.Tempo = AccT{ok, dyOf(bpm)}
 	})
 	try("GetMetaTimeSig", func() {
-		var n, d, c, b uint8
+		n, d, c, b := pb, pb, pb, pb
 		ok := m.GetMetaTimeSig(&n, &d, &c, &b)
+		if !ok {
+			n, d, c, b = 0, 0, 0, 0
+		}
 		acc.Timesig = AccV{ok, b2i(n, d, c, b)}
 	})
 	try("GetMetaMeter", func() {
-		var n, d uint8
+		n, d := pb, pb
 		ok := m.GetMetaMeter(&n, &d)
+		if !ok {
+			n, d = 0, 0
+		}
 		acc.Meter = AccV{ok, b2i(n, d)}
 	})
 	try("GetMetaKeySig", func() {
-		var k, n uint8
-		var maj, flat bool
+		k, n := pb, pb
+		maj, flat := poison, poison
 		ok := m.GetMetaKeySig(&k, &n, &maj, &flat)
+		if !ok {
+			k, n, maj, flat = 0, 0, false, false
+		}
 		acc.Keysig = AccK{ok, int(k), int(n), maj, flat}
 	})
 	try("GetMetaKey", func() {
-		var k smf.Key
+		k := smf.Key{Key: pb, Num: pb, IsMajor: poison, IsFlat: poison}
 		ok := m.GetMetaKey(&k)
+		if !ok {
+			k = smf.Key{}
+		}
 		acc.Key = AccK{ok, int(k.Key), int(k.Num), k.IsMajor, k.IsFlat}
 	})
 	return pan
@@ -332,6 +377,7 @@ func run(c *Call) {
 	var bytes hx.B
 	acc := emptyAcc()
 	pan := ""
+	stable := true
 	go func() {
 		defer close(done)
 		var m smf.Message
@@ -340,13 +386,18 @@ func run(c *Call) {
 			return
 		}
 		bytes = append(hx.B{}, m...)
-		pan = observe(m, &acc)
+		pan = observe(m, &acc, false)
+		acc2 := emptyAcc()
+		if pan2 := observe(m, &acc2, true); pan == "" {
+			pan = pan2
+		}
+		stable = reflect.DeepEqual(acc, acc2)
 	}()
 	select {
 	case <-done:
-		c.Bytes, c.Acc, c.Panic = bytes, acc, pan
+		c.Bytes, c.Acc, c.Panic, c.Stable = bytes, acc, pan, stable
 	case <-time.After(10 * time.Second):
-		c.Panic = "timeout: no answer within 10 s"
+		c.Panic, c.Stable = "timeout: no answer within 10 s", true
 	}
 }
 
@@ -359,7 +410,7 @@ func sweep(id, from, n int) Sweep {
 		p := hx.Catch(func() { m = smf.MetaSequenceNo(uint16(v)) })
 		if p == "" {
 			acc = emptyAcc()
-			p = observe(m, &acc)
+			p = observe(m, &acc, false)
 		}
 		if p != "" && s.Panic == "" {
 			s.Panic = fmt.Sprintf("%d: %s", v, p)
